@@ -58,24 +58,6 @@ def parsePage? (s : String) : Option PqModel.Refine.PageStat :=
     | _, _ => none
   | _ => none
 
-/-- `<numRows>~<pages of col 0>~…~F<first row indexes>[~I]`; pages `min_max_flag` comma separated;
-    `I` = the row group interleaves the rows of its chunks (merged row group) -/
-def parseTarget? (idx : Nat) (s : String) : Option PqModel.Refine.Target :=
-  match s.splitOn "~" with
-  | [] => none
-  | n :: rest =>
-    match parseNat? n with
-    | none => none
-    | some n =>
-      let il := rest.contains "I"
-      let dr := rest.contains "D"
-      let rest := rest.filter (fun x => x != "I" && x != "D")
-      let cols := rest.filter (fun x => !x.startsWith "F")
-      let firsts := rest.filter (fun x => x.startsWith "F")
-      match cols.mapM (parseList? parsePage?), firsts.mapM (fun x => parseList? parseNat? (x.drop 1).toString) with
-      | some cols, some fr => some { idx := idx, numRows := n, cols := cols, firstRows := fr.headD [], interleaved := il, dropsRows := dr }
-      | _, _ => none
-
 /-- shapes in prefix form, tokens separated by `,`: `L` leaf, `E` empty row group, `P` plain `*rowGroup`, `M<drop>:<n>` merged with `n` members,
     `S<drop>:<n>` segments, `U:<n>` multi, `D` dedup, `R` range, `C` converted. Fuel = number of tokens. -/
 def parseShape : Nat → List String → Option (PqModel.Shape.Shape Unit × List String)
@@ -107,6 +89,35 @@ def parseShape : Nat → List String → Option (PqModel.Shape.Shape Unit × Lis
 
 def showRow (r : Row) : String := s!"{r.inp}:{r.seq}"
 def showBatch (b : List Row) : String := showList showRow b
+
+/-- the shape of a row group inside a target of `merge.plan`: part `H<shape with ; for ,>` -/
+def supportsOfPart (parts : List String) : Bool :=
+  match parts.find? (fun x => x.startsWith "H") with
+  | none => true
+  | some h =>
+    let toks := ((h.drop 1).toString.splitOn ";")
+    match parseShape (toks.length + 1) toks with
+    | some (s, []) => PqModel.Shape.supportsRowRanges s
+    | _ => true
+
+/-- `<numRows>~<pages of col 0>~…~F<first row indexes>[~I]`; pages `min_max_flag` comma separated;
+    `I` = the row group interleaves the rows of its chunks (merged row group) -/
+def parseTarget? (idx : Nat) (s : String) : Option PqModel.Refine.Target :=
+  match s.splitOn "~" with
+  | [] => none
+  | n :: rest =>
+    match parseNat? n with
+    | none => none
+    | some n =>
+      let il := rest.contains "I"
+      let dr := rest.contains "D"
+      let sup := supportsOfPart rest
+      let rest := rest.filter (fun x => x != "I" && x != "D" && !x.startsWith "H")
+      let cols := rest.filter (fun x => !x.startsWith "F")
+      let firsts := rest.filter (fun x => x.startsWith "F")
+      match cols.mapM (parseList? parsePage?), firsts.mapM (fun x => parseList? parseNat? (x.drop 1).toString) with
+      | some cols, some fr => some { idx := idx, numRows := n, cols := cols, firstRows := fr.headD [], interleaved := il, dropsRows := dr, supportsRanges := sup }
+      | _, _ => none
 
 def parseOptRow? (s : String) : Option (Option Row) :=
   if s == "n" then some none else (s.toInt?).map (fun k => some { key := k, inp := 0, seq := 0 })
@@ -163,7 +174,7 @@ def handle (toks : List String) : Option String :=
     match parseShape (toks.length + 1) toks with
     | some (s, []) =>
       let b (x : Bool) : String := if x then "1" else "0"
-      s!"ok {b (PqModel.Shape.interleaves s)} {b (PqModel.Shape.dropsRows s)} {b (PqModel.Shape.readsChunksInOrder s)}"
+      s!"ok {b (PqModel.Shape.interleaves s)} {b (PqModel.Shape.dropsRows s)} {b (PqModel.Shape.readsChunksInOrder s)} {b (PqModel.Shape.supportsRowRanges s)}"
     | _ => "bad-op"
   | ["merge.cmp", specs, a, b] => some <|
     match parseList? parseSpec? specs, parseKeyRow? a, parseKeyRow? b with
